@@ -33,6 +33,7 @@ META = {
     'assumptions': [
         'PROVED part (pyvc on the real AST of tools/pycdlib-genisoimage): build_iso_path for symbolic mangled names (every d-character content) of swept lengths, levels 1 and 3, files and directories, after 0 / 1 / 3 collisions against a set oracle (any set in which the first k distinct names asked about are taken); build_joliet_path / build_udf_path for symbolic components that fit the namespace. The callee contract assumed for mangle_file_for_iso9660 / mangle_dir_for_iso9660 (legal output for the level) is the one proved by the C18 check',
         'BOUNDED part (run-time contract on the real programs, NOT counted as proved): 36 (tree, option set) pairs - seven source trees (basic with empty file, empty directory, long name; names that collide after mangling incl. case-only differences and short names; Unicode names; nine-level nesting; relative / absolute / dangling symbolic links; identical contents; two different files with equal size and equal murmur3 hash found by a birthday search with the tool\'s own hash) x option sets over -iso-level 1..4, -R, -r, -J, -udf and -scan-for-duplicates; each pair runs pycdlib-genisoimage and then pycdlib-extract-files once per view in a temporary directory and compares directory snapshots',
+        'random source trees (deterministic in the seed; VERIF_SEED moves the thorough tier): names from a pool of colliding / awkward names (case-only differences, several dots, leading dot, trailing dot, semicolons, spaces, 40-64 characters, non-ASCII), nesting, equal contents, empty files and directories, symbolic links; options drawn from the option table',
         'expected artefacts accepted: the RR_MOVED / rr_moved holding directory when Rock Ridge relocates below the eighth level; Joliet shows no symbolic links; directories below the seventh level are dropped by the tool when Rock Ridge is off (as genisoimage does), so the deep tree is only run with Rock Ridge',
     ],
     'out_of_reach': [
@@ -40,7 +41,7 @@ META = {
         'boot options, hide/exclude patterns, -path-list and graft points are not in the table',
         'Joliet / UDF names longer than the namespace allows (build_joliet_path truncates to 64 characters; collisions after truncation abort the tool): outside the contract precondition',
     ],
-    'bounded': ['ToolsRoundTrip: 36 tree x option pairs (bounded run-time contract check)', 'BuildIsoPath: lengths 1..8 (+0..3), collisions 0/1/3'],
+    'bounded': ['ToolsRoundTrip: 41 table pairs + 12 (quick) / 120 (thorough) random trees x options (bounded run-time contract check)', 'BuildIsoPath: lengths 1..8 (+0..3), collisions 0/1/3'],
 }
 
 MANIFEST = {
